@@ -20,7 +20,7 @@ EXTENDS Integers, Sequences, TLC
 
 \* ---- alphabets -------------------------------------------------------------------------------------------
 Sigma == {"bs", "sq", "dq", "nul", "nl", "cr", "bsp", "tab", "sub", "pct", "us", "dash", "slash", "star",
-          "hash", "semi", "hi", "bad", "a"}
+          "hash", "semi", "hi", "bad", "a", "bt"}   \* "bt": the backtick (raw-string quote of LogQL / TraceQL, identifier quote of ClickHouse)
 \* letters that only the escaping routines emit ("a" of \x1a is the harmless letter of Sigma itself)
 Letters == {"c0", "c1", "n", "r", "b", "t", "x"}
 Gamma == Sigma \cup Letters
